@@ -175,7 +175,9 @@ def triangulate(polygon):
         x = np.cross(c - b, b - a)
         dot = np.dot(normal, x)
         yld = False
-        if dot > 1E-6:
+        # Scale-free convexity test: the ear's area must exceed 1e-6 of the
+        # polygon's area (an absolute threshold fails for polygons of size 1e-2).
+        if dot > 1e-6 * np.dot(normal, normal):
             triangle = (a, b, c)
             if not any_point_in_triangle(triangle,
                                          looped_slice_inv(polygon, i, 3)):
